@@ -37,6 +37,9 @@ type Case struct {
 	// Repoint = (child, old parent, new parent): a kept table's foreign key fkre_<child> on column rr keeps
 	// its name and column but references another table in the desired state (ModifyForeignKey).
 	Repoint *[3]int `json:"repoint,omitempty"`
+	// Realm: table i lives in its own schema s<i> and every table is named "t" (same-named tables in
+	// different schemas); the change set is a realm diff. All n schemas exist on both sides.
+	Realm bool `json:"realm,omitempty"`
 }
 
 type dialect struct {
@@ -180,6 +183,58 @@ func (c *cat) dropFK(child, symbol string) string {
 	return ""
 }
 
+// tname identifies a table in the catalogue: its name, or t<i> for table "t" of schema s<i> (realm mode).
+func tname(t *schema.Table) string {
+	if t.Name == "t" && t.Schema != nil && strings.HasPrefix(t.Schema.Name, "s") {
+		return "t" + strings.TrimPrefix(t.Schema.Name, "s")
+	}
+	return t.Name
+}
+
+var reRealmName = regexp.MustCompile("([`\"])s(\\d+)[`\"]\\.[`\"]t[`\"]")
+
+// buildRealm is build() with one schema per table.
+func buildRealm(n int, present []bool, edges [][2]int) *schema.Realm {
+	r := schema.NewRealm()
+	ts := make([]*schema.Table, n)
+	for i := 0; i < n; i++ {
+		sc := schema.New(fmt.Sprintf("s%d", i))
+		r.AddSchemas(sc)
+		if !present[i] {
+			continue
+		}
+		t := schema.NewTable("t").AddColumns(schema.NewIntColumn("id", "bigint"))
+		t.SetPrimaryKey(schema.NewPrimaryKey(t.Columns[0]))
+		for j := 0; j < n; j++ {
+			t.AddColumns(schema.NewNullIntColumn(fmt.Sprintf("r%d", j), "bigint"))
+		}
+		ts[i] = t
+		sc.AddTables(t)
+	}
+	for _, e := range edges {
+		if ts[e[0]] == nil || ts[e[1]] == nil {
+			continue
+		}
+		c, _ := ts[e[0]].Column(fmt.Sprintf("r%d", e[1]))
+		rc, _ := ts[e[1]].Column("id")
+		ts[e[0]].AddForeignKeys(schema.NewForeignKey(fmt.Sprintf("fk_%d_%d", e[0], e[1])).AddColumns(c).SetRefTable(ts[e[1]]).AddRefColumns(rc))
+	}
+	return r
+}
+
+func catOfRealm(r *schema.Realm) *cat {
+	c := &cat{tables: map[string]bool{}, fks: map[string][2]string{}}
+	for _, s := range r.Schemas {
+		for _, t := range s.Tables {
+			c.tables[tname(t)] = true
+			for _, fk := range t.ForeignKeys {
+				c.fks[tname(t)+"."+fk.Symbol] = [2]string{tname(t), tname(fk.RefTable)}
+			}
+		}
+	}
+	return c
+}
+
 // replaySource executes the structured changes in plan order.
 func replaySource(c *cat, changes []*migrate.Change, created, dropped map[string]int) string {
 	seen := map[schema.Change]bool{}
@@ -190,40 +245,40 @@ func replaySource(c *cat, changes []*migrate.Change, created, dropped map[string
 		seen[pc.Source] = true
 		switch src := pc.Source.(type) {
 		case *schema.AddTable:
-			if c.tables[src.T.Name] {
-				return "create-existing: create of existing table " + src.T.Name
+			if c.tables[tname(src.T)] {
+				return "create-existing: create of existing table " + tname(src.T)
 			}
-			c.tables[src.T.Name] = true
-			created[src.T.Name]++
+			c.tables[tname(src.T)] = true
+			created[tname(src.T)]++
 			for _, fk := range src.T.ForeignKeys {
-				if e := c.addFK(src.T.Name, fk.Symbol, fk.RefTable.Name); e != "" {
+				if e := c.addFK(tname(src.T), fk.Symbol, tname(fk.RefTable)); e != "" {
 					return e
 				}
 			}
 		case *schema.DropTable:
-			if e := c.dropTable(src.T.Name); e != "" {
+			if e := c.dropTable(tname(src.T)); e != "" {
 				return e
 			}
-			dropped[src.T.Name]++
+			dropped[tname(src.T)]++
 		case *schema.ModifyTable:
-			if !c.tables[src.T.Name] {
-				return "modify-missing-table: modify of missing table " + src.T.Name
+			if !c.tables[tname(src.T)] {
+				return "modify-missing-table: modify of missing table " + tname(src.T)
 			}
 			for _, ch := range src.Changes {
 				switch ch := ch.(type) {
 				case *schema.AddForeignKey:
-					if e := c.addFK(src.T.Name, ch.F.Symbol, ch.F.RefTable.Name); e != "" {
+					if e := c.addFK(tname(src.T), ch.F.Symbol, tname(ch.F.RefTable)); e != "" {
 						return e
 					}
 				case *schema.DropForeignKey:
-					if e := c.dropFK(src.T.Name, ch.F.Symbol); e != "" {
+					if e := c.dropFK(tname(src.T), ch.F.Symbol); e != "" {
 						return e
 					}
 				case *schema.ModifyForeignKey:
-					if e := c.dropFK(src.T.Name, ch.From.Symbol); e != "" {
+					if e := c.dropFK(tname(src.T), ch.From.Symbol); e != "" {
 						return e
 					}
-					if e := c.addFK(src.T.Name, ch.To.Symbol, ch.To.RefTable.Name); e != "" {
+					if e := c.addFK(tname(src.T), ch.To.Symbol, tname(ch.To.RefTable)); e != "" {
 						return e
 					}
 				}
@@ -231,7 +286,7 @@ func replaySource(c *cat, changes []*migrate.Change, created, dropped map[string
 			// one ALTER TABLE: constraint drops take effect before column drops
 			for _, ch := range src.Changes {
 				if ch, ok := ch.(*schema.DropColumn); ok {
-					if e := c.dropCol(src.T.Name, ch.C.Name); e != "" {
+					if e := c.dropCol(tname(src.T), ch.C.Name); e != "" {
 						return e
 					}
 				}
@@ -255,7 +310,7 @@ var (
 // replayText executes what the statement text says, in plan order.
 func replayText(c *cat, changes []*migrate.Change, created, dropped map[string]int) string {
 	for _, pc := range changes {
-		cmd := pc.Cmd
+		cmd := reRealmName.ReplaceAllString(pc.Cmd, "${1}t${2}${1}")
 		switch {
 		case reCreate.MatchString(cmd):
 			t := reCreate.FindStringSubmatch(cmd)[1]
@@ -406,12 +461,21 @@ func one(cs Case) (why string, cmds []string, nchanges int) {
 		return s
 	}
 	cur, des := mk(false), mk(true)
-	changes, err := d.diff.SchemaDiff(cur, des, schema.DiffNormalized())
+	curCat, desCat := func() *cat { return catOf(mk(false)) }, func() *cat { return catOf(mk(true)) }
+	var changes []schema.Change
+	var err error
+	if cs.Realm {
+		curCat = func() *cat { return catOfRealm(buildRealm(cs.N, curP, curE)) }
+		desCat = func() *cat { return catOfRealm(buildRealm(cs.N, desP, desE)) }
+		changes, err = d.diff.RealmDiff(buildRealm(cs.N, curP, curE), buildRealm(cs.N, desP, desE), schema.DiffNormalized())
+	} else {
+		changes, err = d.diff.SchemaDiff(cur, des, schema.DiffNormalized())
+	}
 	if err != nil {
 		return "diff-error: " + err.Error(), nil, 0
 	}
 	if len(changes) == 0 {
-		if !same(catOf(mk(false)), catOf(mk(true))) {
+		if !same(curCat(), desCat()) {
 			return "empty-diff: differ reports nothing although the catalogues differ", nil, 0
 		}
 		return "", nil, 0
@@ -443,7 +507,7 @@ func one(cs Case) (why string, cmds []string, nchanges int) {
 	}
 	plan = plan2
 	for leg, rp := range []func(*cat, []*migrate.Change, map[string]int, map[string]int) string{replaySource, replayText} {
-		c := catOf(mk(false))
+		c := curCat()
 		c.dialect = cs.Dialect
 		created, dropped := map[string]int{}, map[string]int{}
 		legName := []string{"source", "text"}[leg]
@@ -451,7 +515,7 @@ func one(cs Case) (why string, cmds []string, nchanges int) {
 			i := strings.Index(w, ":")
 			return w[:i] + "|" + legName + ":" + w[i+1:], cmds, len(changes)
 		}
-		if !same(c, catOf(des)) {
+		if !same(c, desCat()) {
 			return "final-catalogue|" + legName + ": catalogue after the plan differs from the desired one", cmds, len(changes)
 		}
 		for i, r := range cs.Role {
@@ -516,6 +580,11 @@ func run(c *rt.Ctx) {
 					dc := cs
 					dc.DropCol = true
 					cases = append(cases, dc)
+				}
+				if mode == 0 && (d == "mysql" || d == "postgres") && n >= 2 {
+					rl := cs
+					rl.Realm = true
+					cases = append(cases, rl)
 				}
 				if mode == 0 || n > 3 {
 					// re-pointed key: kept child, old parent exists now, new parent exists afterwards
@@ -587,6 +656,9 @@ func run(c *rt.Ctx) {
 		if cs.Repoint != nil {
 			c.Count("fk-repointed(ModifyForeignKey)", 1)
 		}
+		if cs.Realm {
+			c.Count("realm(same-named tables in different schemas)", 1)
+		}
 		if hasCycle(cs) {
 			c.Count("cyclic-graphs", 1)
 		}
@@ -608,6 +680,9 @@ func keyOf(cs Case, class string) string {
 	k := cs.Dialect + "|" + class
 	if cs.Repoint != nil {
 		k += "|repointed-fk"
+	}
+	if cs.Realm {
+		k += "|same-named-tables-in-different-schemas"
 	}
 	return k
 }
